@@ -1,7 +1,7 @@
 #!/usr/bin/env python3
 """seedkeep.py <id> <prop> <patch> <demo> <pkg> <run-regex> <needs> <caught: yes|no|after-strengthening> <note>
 Archives a confirmed seeded change under /verif/seeded/<id>/ (patch.diff, demo, meta.json)."""
-import json, os, shutil, sys
+import json, os, shutil, subprocess, sys
 sid, prop, patch, demo, pkg, run, needs, caught, note = sys.argv[1:10]
 d = os.path.join("/verif/seeded", sid)
 os.makedirs(d, exist_ok=True)
@@ -12,6 +12,7 @@ meta = dict(id=sid, property=prop, breaks=prop, needs_to_manifest=needs,
             confirmed=["patch applies to /repo HEAD in a scratch worktree", "go build ./... succeeds", "go test -vet=off -count=1 ./... passes with the patch",
                        "demonstration passes without the patch and fails with it",
                        "VERIF_REPO=<patched worktree> ./check %s --tier quick" % prop],
-            caught_by_check=caught, note=note)
+            caught_by_check=caught, note=note,
+            base=subprocess.run(["git", "-C", "/repo", "rev-parse", "--short", "HEAD"], capture_output=True, text=True).stdout.strip())
 json.dump(meta, open(os.path.join(d, "meta.json"), "w"), indent=1)
 print("kept", d)
